@@ -28,11 +28,57 @@ from ..fsmodel import StoreModel, show, mentions_sym
 PROP = "C04"
 
 
+def _presence_filtered_loop(ctx: Ctx, top: Func, fl, arg: ast.Name, req: ast.Name) -> bool:
+    """the loop form of the same restriction: `arg` starts empty and is filled by `arg[p] = k` in a loop over `req.items()` (target `(p, k)`); in an iteration where
+    store.has_blob(k) holds the store is always reached (no other filter), in one where it does not hold it is never reached"""
+    from ..propdom import excluding_branches
+    prog = ctx.prog
+    cfg = cfg_of(top)
+    stores = [st for st in top.own_nodes() if isinstance(st, ast.Assign) and len(st.targets) == 1 and isinstance(st.targets[0], ast.Subscript)
+              and isinstance(st.targets[0].value, ast.Name) and st.targets[0].value.id == arg.id]
+    if len(stores) != 1:
+        return False
+    st = stores[0]
+    loops = [lp for lp in top.own_nodes() if isinstance(lp, ast.For) and any(st is y for b_ in lp.body for y in ast.walk(b_))]
+    if not loops:
+        return False
+    lp = loops[-1]
+    it = lp.iter
+    if not (isinstance(it, ast.Call) and isinstance(it.func, ast.Attribute) and it.func.attr == "items" and isinstance(it.func.value, ast.Name)
+            and set(fl.root_defs(it.func.value)) == set(fl.root_defs(req))):
+        return False
+    if not (isinstance(lp.target, (ast.Tuple, ast.List)) and len(lp.target.elts) == 2 and all(isinstance(x, ast.Name) for x in lp.target.elts)):
+        return False
+    pv, kv = lp.target.elts[0].id, lp.target.elts[1].id
+    if not (isinstance(st.targets[0].slice, ast.Name) and st.targets[0].slice.id == pv and isinstance(st.value, ast.Name) and st.value.id == kv):
+        return False
+
+    def atom(e: ast.AST) -> Optional[str]:
+        if isinstance(e, ast.Call) and isinstance(e.func, ast.Attribute) and e.func.attr == "has_blob" and len(e.args) == 1 and isinstance(e.args[0], ast.Name) and e.args[0].id == kv:
+            return "present"
+        return None
+    tb = [x for x in cfg.nodes if x.kind == "branch" and x.ast is lp and x.label == "T"]
+    heads = [x for x in cfg.nodes if x.kind == "loop" and x.ast is lp]
+    st_nodes = cfg.nodes_of(st)
+    if not tb or not heads or not st_nodes:
+        return False
+    # present -> the store is reached on every path of the iteration
+    av_t = excluding_branches(prog, top, cfg, {"present": True}, atom)
+    if cfg.find_path(tb, heads + [cfg.exit], avoid=av_t + st_nodes, include_src=False) is not None:
+        return False
+    # absent -> the store is not reached
+    av_f = excluding_branches(prog, top, cfg, {"present": False}, atom)
+    if cfg.find_path(tb, st_nodes, avoid=av_f, include_src=False) is not None:
+        return False
+    # the test exists at all
+    return any(atom(y) is not None for b_ in lp.body for y in ast.walk(b_))
+
+
 def _presence_filtered(ctx: Ctx, top: Func, fl, arg: ast.Name, req: ast.Name) -> bool:
     """`arg` is defined once, as the (path, key) pairs of the evaluation's path map `req` whose key satisfies store.has_blob(key) - and nothing else"""
     v = None
     for _ in range(5):
-        ds = fl.defs_of_use(arg)
+        ds = [d for d in fl.defs_of_use(arg) if d.kind != "item"]   # (`m[k] = v` fills the mapping, it does not define it)
         if len(ds) != 1 or ds[0].value is None:
             return False
         v = ds[0].value
@@ -42,6 +88,9 @@ def _presence_filtered(ctx: Ctx, top: Func, fl, arg: ast.Name, req: ast.Name) ->
         break
     if isinstance(v, ast.Call) and unparse(v.func).split(".")[-1] in ("OrderedDict", "dict") and len(v.args) == 1 and not v.keywords:
         v = v.args[0]
+    empty_map = (isinstance(v, ast.Dict) and not v.keys) or (isinstance(v, ast.Call) and not v.args and not v.keywords and unparse(v.func).split(".")[-1] in ("OrderedDict", "dict"))
+    if empty_map:
+        return _presence_filtered_loop(ctx, top, fl, arg, req)
     if not isinstance(v, (ast.ListComp, ast.GeneratorExp, ast.DictComp)) or len(v.generators) != 1:
         return False
     g = v.generators[0]
